@@ -10,6 +10,8 @@ import SymVerif.Lemmas.C32Crt
 import SymVerif.Lemmas.C32Proot
 import SymVerif.Lemmas.C32Jacobi
 import SymVerif.Lemmas.C32Harmonic
+import SymVerif.Lemmas.C32NthRes
+import SymVerif.Lemmas.C32NthZero
 /-!
 # C32  Number-theoretic functions agree with their definitions
 
@@ -604,5 +606,30 @@ theorem polygonal_spec (s n : Int) : 2 * mpPolygonalNumber s n = (s - 2) * n * n
     exact Int.dvd_add (Dvd.dvd.mul_left h2 _) (Dvd.intro _ rfl)
   obtain ⟨c, hc⟩ := heven
   rw [hc, Int.mul_tdiv_cancel_left _ (by decide)]
+
+/-! ## n-th power residues (odd prime powers, unit residues) -/
+
+/-- the solvability test used by `is_nth_residue`, `is_quad_residue` and (as its first step) by
+    `nthroot_mod(_list)` for an odd prime power `p^k` and `p ∤ a`:
+    `a^(φ/gcd(φ,n)) ≡ 1 (mod p^k)` holds exactly when `x^n ≡ a (mod p^k)` has a solution. -/
+theorem is_nthroot_mod1_spec {p : Nat} (hp : p.Prime) (hp2 : p ≠ 2) (a n : Int) (k : Nat) (hk : 1 ≤ k)
+    (hn : 1 ≤ n) (ha : ¬ (p : Int) ∣ a) :
+    isNthrootMod1 a n p k = true ↔ ∃ x : ZMod (p ^ k), x ^ n.toNat = (a : ZMod (p ^ k)) :=
+  isNthrootMod1_iff hp hp2 a n k hk hn ha
+
+example : isNthrootMod1 2 2 7 1 = true ↔ ∃ x : ZMod (7 ^ 1), x ^ (2 : Int).toNat = ((2 : Int) : ZMod (7 ^ 1)) :=
+  is_nthroot_mod1_spec Nat.prime_seven (by decide) 2 2 1 (by decide) (by decide) (by decide)
+
+/-- one complete branch of `_nthroot_mod_prime_power` (`all_roots = true`, `a ≡ 0 (mod p^k)`):
+    the list is exactly `{x ∈ [0, p^k) | x^n ≡ 0 (mod p^k)}` (soundness and completeness). -/
+theorem nthroot_zero_branch_partial {p : Nat} (hp : p.Prime) (a n : Int) (k f : Nat) (hk : 1 ≤ k)
+    (hn : 1 ≤ n) (ha : ((p ^ k : Nat) : Int) ∣ a) :
+    ∃ l, nthrootModPrimePower a n p true (f + 1) k = .ok (some l) ∧
+      ∀ x : Int, x ∈ l ↔ 0 ≤ x ∧ x < ((p ^ k : Nat) : Int) ∧ ((p ^ k : Nat) : Int) ∣ x ^ n.toNat :=
+  nthroot_zero_branch hp a n k f hk hn ha
+
+example : ∃ l, nthrootModPrimePower 27 2 3 true (3 + 1) 3 = .ok (some l) ∧
+    ∀ x : Int, x ∈ l ↔ 0 ≤ x ∧ x < ((3 ^ 3 : Nat) : Int) ∧ ((3 ^ 3 : Nat) : Int) ∣ x ^ (2 : Int).toNat :=
+  nthroot_zero_branch_partial Nat.prime_three 27 2 3 3 (by decide) (by decide) (by decide)
 
 end SymVerif.C32
